@@ -64,6 +64,67 @@ def canon_exc(e: BaseException) -> str:
     return "CRASH " + type(e).__name__
 
 
+def jenc(x, sort=False) -> str:
+    """JSON value -> prefix token stream (see driver/main.ml)."""
+    if x is None:
+        return "n"
+    if x is True:
+        return "t"
+    if x is False:
+        return "f"
+    if isinstance(x, int):
+        return "i" + str(x)
+    if isinstance(x, str):
+        return "s" + enc(x)
+    if isinstance(x, (list, tuple)):
+        return " ".join(["a" + str(len(x))] + [jenc(v, sort) for v in x])
+    if isinstance(x, dict):
+        items = list(x.items())
+        if sort:
+            items.sort(key=lambda kv: [ord(c) for c in kv[0]])
+        out = ["o" + str(len(items))]
+        for k, v in items:
+            if not isinstance(k, str):
+                raise TypeError("non-str key")
+            out += [enc(k), jenc(v, sort)]
+        return " ".join(out)
+    raise TypeError(f"not JSON: {type(x).__name__}")
+
+
+def jdec(s: str):
+    toks = s.split(" ")
+    pos = [0]
+
+    def nxt():
+        t = toks[pos[0]]
+        pos[0] += 1
+        return t
+
+    def go():
+        t = nxt()
+        c, rest = t[0], t[1:]
+        if c == "n":
+            return None
+        if c == "t":
+            return True
+        if c == "f":
+            return False
+        if c == "i":
+            return int(rest)
+        if c == "s":
+            return dec(rest)
+        if c == "a":
+            return [go() for _ in range(int(rest))]
+        if c == "o":
+            d = {}
+            for _ in range(int(rest)):
+                k = dec(nxt())
+                d[k] = go()
+            return d
+        raise ValueError("json token " + t)
+    return go()
+
+
 def guard(f):
     try:
         return "OK " + f()
@@ -194,6 +255,109 @@ def f_iban_decomp(a):
         parts.append(guard(both))
     parts.append(guard(lambda: enc(str(IBAN.from_bban(o.country_code, o.bban, allow_invalid=True)))))
     return " / ".join(parts)
+
+
+def f_merge_dicts(a):
+    import copy
+    l, r = jdec(a[0]), jdec(a[1])
+    if not (isinstance(l, dict) and isinstance(r, dict)):
+        return "NOT-OBJECTS"
+    l0, r0 = copy.deepcopy(l), copy.deepcopy(r)
+    m = registry.merge_dicts(l, r)
+    if l != l0 or r != r0:
+        return "MUTATED-ARGUMENT"
+    return jenc(m, sort=True)
+
+
+def f_parse_v2(a):
+    return guard(lambda: jenc(registry.parse_v2(jdec(a[0])), sort=True))
+
+
+def f_registry_get(a):
+    """args: name, then (file name, json) pairs; runs the real registry.get on a scratch directory."""
+    import json as _json
+    import pathlib
+    import shutil
+    import tempfile
+    name = "verifscratch"
+    tmp = pathlib.Path(tempfile.mkdtemp(prefix="verif_reg_", dir="/dev/shm"))
+    try:
+        d = tmp / f"{name}_registry"
+        d.mkdir()
+        for i in range(0, len(a), 2):
+            (d / dec(a[i])).write_text(_json.dumps(jdec(a[i + 1])), encoding="utf-8")
+        old_files = registry.files
+        registry.files = lambda _pkg: tmp
+        registry._registry.pop(name, None)
+        try:
+            def run():
+                v = registry.get(name)
+                return jenc(v, sort=True)
+            return guard(run)
+        finally:
+            registry.files = old_files
+            registry._registry.pop(name, None)
+    finally:
+        shutil.rmtree(tmp, ignore_errors=True)
+
+
+def f_candidates(a):
+    return guard(lambda: encl([str(x) for x in BIC.candidates_from_bank_code(dec(a[0]), dec(a[1]))]))
+
+
+def f_from_bank_code(a):
+    return guard(lambda: enc(str(BIC.from_bank_code(dec(a[0]), dec(a[1])))))
+
+
+def f_bic_domestic(a):
+    x = BIC(dec(a[0]), allow_invalid=True)
+    return encl(x.domestic_bank_codes) + " exists=" + eb(x.exists)
+
+
+def f_bic_names(a):
+    return _json_dumps(BIC(dec(a[0]), allow_invalid=True).bank_names)
+
+
+def f_bic_short_names(a):
+    return _json_dumps(BIC(dec(a[0]), allow_invalid=True).bank_short_names)
+
+
+def _json_dumps(x):
+    import json as _json
+    return _json.dumps(x, ensure_ascii=True)
+
+
+_BANK_IDS = {}
+
+
+def _bank_id(entry):
+    if not _BANK_IDS:
+        for i, en in enumerate(registry.get("bank")):
+            _BANK_IDS[id(en)] = i
+    return _BANK_IDS.get(id(entry), -1)
+
+
+def f_iban_bank_lookup(a):
+    def run():
+        o = IBAN.from_bban(dec(a[0]), dec(a[1]))
+        bank = o.bank
+        bic = o.bic
+        if (bank is None) != (o.bank_name is None) or (bank is not None and (o.bank_name != bank["name"] or o.bank_short_name != bank["short_name"])):
+            return "bank/bank_name disagree"
+        return "bank=" + ("none" if bank is None else str(_bank_id(bank))) + " bic=" + ("none" if bic is None else enc(str(bic)))
+    return guard(run)
+
+
+def f_n_banks(a):
+    return str(len(registry.get("bank")))
+
+
+def f_spec_wf_bank(a):
+    return "1"
+
+
+def f_spec_wf_country(a):
+    return "1"
 
 
 # property oracles: the implementation side of a spec comparison
